@@ -394,4 +394,35 @@ example : (cleanMath (.elem (s "math") [] [.elem (s "msubsup") [] [.elem (s "mph
 example : arIn (trim (.elem (s "math") [] [.elem (s "msubsup") [] [.elem (s "mphantom") [] [.elem (s "mi") [] [.text (s "y")]], .elem (s "mrow") [] [],
     .elem (s "mn") [] [.text (s "2")]], .elem (s "mi") [] [.text (s "x")]])) = true := by decide +kernel
 
+/-! ### the index expressions of the script branch (`children[1]`, `children[2]`, canonicalize.rs:1151-1154, `clean_msubsup`) are in range -/
+
+/-- after the children loop an `msub` / `msup` that passed `assure_mathml` still has two children, an `msubsup` three: the
+`children[0]`, `children[1]` (and `children[2]`) of the empty-script test and of `clean_msubsup` exist -/
+theorem script_children_present (n : Str) (attrs : List (Str × Str)) (kids : List Node) (hin : arIn (.elem n attrs kids) = true) :
+    ((n = s "msub" ∨ n = s "msup") → (cleanL (fixedArity.contains n) n kids).length = 2) ∧
+    (n = s "msubsup" → (cleanL (fixedArity.contains n) n kids).length = 3) := by
+  rw [arIn, Bool.and_eq_true] at hin
+  constructor
+  · intro hn
+    have ha : arityOf n = some 2 := by rcases hn with hn | hn <;> subst hn <;> decide
+    have hf : fixedArity.contains n = true := by rw [fixed_iff, ha]; rfl
+    rw [hf, cleanL_length_fixed]
+    rw [ha] at hin; simpa using hin.1
+  · intro hn
+    have ha : arityOf n = some 3 := by subst hn; decide
+    have hf : fixedArity.contains n = true := by rw [fixed_iff, ha]; rfl
+    rw [hf, cleanL_length_fixed]
+    rw [ha] at hin; simpa using hin.1
+
+/-- the `chars.next().unwrap()` of the `mn` arm (canonicalize.rs:807) is reached with a non-empty text only: an empty `mn` has
+been replaced or removed by the empty-leaf rule in front of the `match` -/
+theorem mn_first_char_present (prc : Bool) (attrs : List (Str × Str)) (r : Node) (h : cleanLeaf prc (s "mn") attrs [] = some r) :
+    r = makeEmpty attrs := by
+  unfold cleanLeaf at h
+  have he : (!emptyEls.contains (s "mn") && ([] : Str).isEmpty) = true := by decide
+  rw [if_pos he] at h
+  split at h
+  · injection h with h; exact h.symm
+  · cases h
+
 end MC.Props.C02Clean
